@@ -6,6 +6,7 @@ led/nud kinds, guards and closers the code has now).
 import EPV.Gen.C04Tables
 import EPV.Lemmas.PrattTables
 import EPV.Props.C04
+import EPV.Lemmas.PrattLexer
 namespace EPV.C04
 open EPV.Syn EPV.Pratt EPV.Gen.C04
 
@@ -223,5 +224,82 @@ theorem f04d_path_operand :
 /-- test (literals): `n1 or n2 and n3 = n4 + n5 * - n6 [ 1 ]`: model = reference parser, and it parses -/
 example : (modelParse opTable_v31 t_mixed).toOption = specParse levels31 true opTable_v31 t_mixed ∧
     (specParse levels31 true opTable_v31 t_mixed).isSome = true := by decide +kernel
+
+/-- XPath 3.1 / 3.0: the reference parser's tree is the model's tree whenever the guards let it pass -/
+theorem model_eq_reference_v31 (toks : List Tok) (t : Tree) (h : specParse levels31 true opTable_v31 toks = some t)
+    (hg : guardsPass (tableOf opTable_v31) t = true) : modelParse opTable_v31 toks = .ok t :=
+  model_eq_reference _ _ _ _ _ _ (consistent_of_check _ _ _ consistent_v31) (pos_of_check _ _ _ consistent_v31) toks t h hg
+
+theorem model_eq_reference_v30 (toks : List Tok) (t : Tree) (h : specParse levels30 true opTable_v30 toks = some t)
+    (hg : guardsPass (tableOf opTable_v30) t = true) : modelParse opTable_v30 toks = .ok t :=
+  model_eq_reference _ _ _ _ _ _ (consistent_of_check _ _ _ consistent_v30) (pos_of_check _ _ _ consistent_v30) toks t h hg
+
+/-! ### unary lookup `?k` (3.1 [76]): not a `nud` of the model, but its rbp is read from the code -/
+
+/-- the rbp with which `LookupOperatorToken.nud` parses its key (read by the translator from the source of the
+nud) is at least the lbp of every modelled operator symbol; so in the table where `?` has that prefix `nud`,
+the operand of a unary lookup in any parse result is never built by a `led` — the lookup is closed before any
+binary, typed or postfix operator applies, i.e. it is parsed as a primary expression (the key check
+`expected_next(name, integer, '(', '*')` itself is covered by correspondence only) -/
+theorem unary_lookup_primary_v31 (toks : List Tok) (t : Tree)
+    (h : parse (tableOf (withPrefixNud opTable_v31 "?" unaryLookupRbp_v31)) toks = .ok t) :
+    anyNode (fun n => match n with
+      | .pre q x => q == opTable_v31.findIdx (·.sym == "?") && !notLedBuilt x
+      | _ => false) t = false :=
+  dominant_prefix_operand _ _ unaryLookupRbp_v31 (by decide +kernel) (by decide +kernel) t (pratt_wfr _ toks t h)
+
+theorem unary_lookup_primary_v31c (toks : List Tok) (t : Tree)
+    (h : parse (tableOf (withPrefixNud opTable_v31c "?" unaryLookupRbp_v31c)) toks = .ok t) :
+    anyNode (fun n => match n with
+      | .pre q x => q == opTable_v31c.findIdx (·.sym == "?") && !notLedBuilt x
+      | _ => false) t = false :=
+  dominant_prefix_operand _ _ unaryLookupRbp_v31c (by decide +kernel) (by decide +kernel) t (pratt_wfr _ toks t h)
+
+/-- test (literals): with that table `( ? 1 + ? 2 )` is `(?1) + (?2)` and `? n1 [ 1 ]` is `(?n1)[1]` -/
+example :
+    let r := withPrefixNud opTable_v31 "?" unaryLookupRbp_v31
+    (modelParse r [opTok r "(", opTok r "?", num 1, opTok r "+", opTok r "?", num 2, .close 0]).toOption =
+      some (.group (r.findIdx (·.sym == "(")) 0 (.bin (r.findIdx (·.sym == "+"))
+        (.pre (r.findIdx (·.sym == "?")) (.atom 1 1)) (.pre (r.findIdx (·.sym == "?")) (.atom 1 2)))) ∧
+    (modelParse r [opTok r "?", nm 1, opTok r "[", num 1, .close 1]).toOption =
+      some (.post (r.findIdx (·.sym == "[")) 1 (.pre (r.findIdx (·.sym == "?")) (.atom 0 1)) (.atom 1 1)) := by
+  decide +kernel
+
+/-! ### tokenizer: the order of the custom alternatives (a Python `set`, hash-seed dependent) is irrelevant -/
+
+open EPV.Lexer in
+/-- the side conditions of `custom_alt_agree` hold for the alternatives of every version's tokenizer, as read
+by the translator from the live token patterns: every look-ahead needs a next character that is not a name
+character, literal words consist of name characters, and `Q{` cannot match together with any other
+alternative -/
+theorem alts_ok : altsOK classes_v10 alts_v10 = true ∧ altsOK classes_v20 alts_v20 = true ∧
+    altsOK classes_v30 alts_v30 = true ∧ altsOK classes_v31 alts_v31 = true := by decide +kernel
+
+open EPV.Lexer in
+/-- **custom_alt_agree** (3.1; the other versions are sub-lists): two custom alternatives that match at the same
+offset match the same lexeme — for every text -/
+theorem custom_alt_agree_v31 (A B : Alt) (hA : A ∈ alts_v31) (hB : B ∈ alts_v31) (s : List Ch) (n m : Nat)
+    (h1 : matchLen classes_v31 A s = some n) (h2 : matchLen classes_v31 B s = some m) : n = m :=
+  alt_agree classes_v31 alts_v31 alts_ok.2.2.2 A B hA hB s n m h1 h2
+
+open EPV.Lexer in
+/-- hence the lexeme chosen by the alternation `A₁|A₂|…` is the same for every ordering of the alternatives,
+i.e. for every hash seed (modulo the translator's reading of the patterns) -/
+theorem tokenizer_order_independent (s : List Ch) :
+    (∀ l, l.Perm alts_v10 → choose classes_v10 l s = choose classes_v10 alts_v10 s) ∧
+    (∀ l, l.Perm alts_v20 → choose classes_v20 l s = choose classes_v20 alts_v20 s) ∧
+    (∀ l, l.Perm alts_v30 → choose classes_v30 l s = choose classes_v30 alts_v30 s) ∧
+    (∀ l, l.Perm alts_v31 → choose classes_v31 l s = choose classes_v31 alts_v31 s) :=
+  ⟨fun l h => (choose_perm _ _ _ h.symm alts_ok.1 s).symm,
+   fun l h => (choose_perm _ _ _ h.symm alts_ok.2.1 s).symm,
+   fun l h => (choose_perm _ _ _ h.symm alts_ok.2.2.1 s).symm,
+   fun l h => (choose_perm _ _ _ h.symm alts_ok.2.2.2 s).symm⟩
+
+/-- test (literals): on `map{` the `map` alternative and on `Q{x}` the `Q{` alternative are chosen; `abc (` is a
+function name of length 3, `abc` alone is not matched by any custom alternative -/
+example : EPV.Lexer.choose classes_v31 alts_v31 [109, 97, 112, 123] = some 3 ∧
+    EPV.Lexer.choose classes_v31 alts_v31 [81, 123, 120, 125] = some 2 ∧
+    EPV.Lexer.choose classes_v31 alts_v31 [97, 98, 99, 32, 40] = some 3 ∧
+    EPV.Lexer.choose classes_v31 alts_v31 [97, 98, 99] = none := by decide +kernel
 
 end EPV.C04
